@@ -58,7 +58,11 @@ pub fn decompress<const B: usize, const SIZE: usize, const RANK: usize, const RE
     }
     module.decompress_glwe(&mut res, &c);
     // (only reached when the receiver was accepted)
-    assert!(RES_SIZE == SIZE, "a receiver with a different layout was accepted");
+    if RES_SIZE != SIZE {
+        // refusal instance (`kani::should_panic`): returning normally is the violation; no harness
+        // assertion may fire here, or it would itself count as the expected panic
+        return;
+    }
     unsafe {
         assert!(NEW_CALLS == 1, "mask generator not created exactly once");
         let mut i = 0;
